@@ -31,6 +31,7 @@ REL = [0, 1, 2]
 DEATH = ["none", "low", "high", "all"]
 PVARS = ["none", "float", "time"]
 REFS = ["default", "earlier", "later"]
+FAR = "1900-01-01T00:00:00"  # more than 2**31 seconds before the run: the time coordinate needs the full range and resolution of a double
 
 
 def bounds(tier, seed):
@@ -52,6 +53,11 @@ def cases(tier, seed):
                     combos = list(itertools.product(PVARS, REFS, b["numrec"]))
                 for pv, ref, numrec in combos:
                     out.append(dict(hist=[list(h) for h in hist], layout=layout, period=period, pvars=pv, ref=ref, numrec=numrec))
+    # beyond the small lattice: a crowd (a death among hundreds must still be removed) and a reference time in another century
+    for layout, (crowd, death) in itertools.product(b["layouts"], [(300, "low"), (700, "high"), (120, "low")]):
+        out.append(dict(hist=[[crowd, death], [0, "high"], [1, "none"], [0, "low"]], layout=layout, period=1, pvars="float", ref="default", numrec=2))
+    for layout, pv in itertools.product(b["layouts"], ["time", "none"]):
+        out.append(dict(hist=[[2, "low"], [1, "none"], [0, "high"]], layout=layout, period=2, pvars=pv, ref="far", numrec=0))
     return out
 
 
@@ -68,7 +74,7 @@ def plan(case):
         for k in range(nrel):
             pid = npid
             npid += 1
-            info[pid] = dict(X=3.0 + pid * 0.5, Y=4.0 + (pid % 3), Z=1.0 + pid, weight=10.0 + pid, t=S0 + s * DT)
+            info[pid] = dict(X=3.0 + (pid % 16) * 0.5 + 0.015625 * (pid // 16 % 8), Y=4.0 + (pid % 3), Z=1.0 + pid % 40, weight=10.0 + pid, t=S0 + s * DT)
             rows.append(dict(release_time=world.iso(S0 + s * DT), X=info[pid]["X"], Y=info[pid]["Y"], Z=info[pid]["Z"], weight=info[pid]["weight"]))
             living.append(pid)
         rec_living.append(list(living))
@@ -92,7 +98,7 @@ def run_case(case):
     pl = plan(case)
     P, layout, numrec = case["period"], case["layout"], case["numrec"]
     d = util.scratch("c06")
-    refsec = dict(default=None, earlier=S0 - 86400 * 3 - 11, later=S0 + 3600)[case["ref"]]
+    refsec = dict(default=None, earlier=S0 - 86400 * 3 - 11, later=S0 + 3600, far=world.tosec(FAR))[case["ref"]]
     state = dict(instance_variables=dict(age="float"), default_values=dict(age=0.0))
     pout = {}
     if case["pvars"] != "none":
